@@ -1,0 +1,7 @@
+//go:build !verif
+
+package core
+
+func verifFileAccess(string, string) {}
+
+func (*JApiCore) verifPhase(string) {}
